@@ -442,6 +442,53 @@ def mode_c07(emit, tier, rng, scenario_file):
         emit(run_schedules(kind, cfg, frs, rng, tid))
 
 
+def undescribe(kind, ev, fr):
+    """Recorded fragment description -> abstract fragment (for --replay: the same input is rebuilt and re-run)."""
+    flen = fr['end'] - fr['start']
+    if kind == 'nla':
+        clip = fr['start'] - fr['site'] if fr['strand'] == 0 else fr['site'] + 4 - fr['end']
+    elif kind == 'chic':
+        clip = fr['start'] - (fr['site'] + 1) if fr['strand'] == 0 else fr['site'] - fr['end']
+    else:
+        clip = 0
+    return {'cell': fr['cell'], 'contig': fr['contig'], 'strand': fr['strand'], 'site': fr['site'], 'flen': flen,
+            'rlen': ev['readlen'], 'clip': clip, 'umi': fr['umi'], 'valid': fr['valid'], 'how': '' if fr['valid'] else 'qcfail',
+            'dup': fr.get('dup', False)}
+
+
+def mode_replay(emit, rng, event_file):
+    with open(event_file) as fh:
+        ev = json.load(fh)
+    kind = ev['kind']
+    frs = [undescribe(kind, ev, fr) for fr in ev['frags']]
+    cfg = {'kind': kind, 'hd': ev['hd'], 'radius': ev['radius'], 'cap': ev['cap'], 'cache': ev['cache'], 'readlen': ev['readlen'],
+           'keep_order': True, 'dup_mode': 'given'}
+    if ev['ev'] == 'lib':
+        cfg['pooling'] = ev['pooling']
+        built = [(d,) + build(kind, 0, d, rng) for d in frs]
+        reads = []
+        for i, (d, pair, s, e) in enumerate(built):
+            for r in pair:
+                if r is not None:
+                    r.query_name = 'f%d' % (i + 1)
+            reads.append(pair)
+        rounds = []
+        for _ in range(len(ev['rounds'])):
+            r, raised = iterate(kind, reads, hd=cfg['hd'], radius=cfg['radius'], cap=cfg['cap'], pooling=cfg['pooling'], sched=None,
+                                cache=cfg['cache'], tags=True)
+            rounds.append(r)
+        emit(dict(ev, frags=[describe(d, s, e) for d, pair, s, e in built], rounds=rounds))
+    else:
+        scheds, poolings = [], []
+        for r in ev['runs']:
+            sc = None if r['sched'] == -1 else r['sched']
+            if sc not in scheds:
+                scheds.append(sc)
+            if r['pooling'] not in poolings:
+                poolings.append(r['pooling'])
+        emit(run_schedules(kind, cfg, frs, rng, ev['tid'], scheds=scheds, poolings=poolings, model=ev.get('model')))
+
+
 def main():
     out, tier, seed, mode = sys.argv[1], sys.argv[2], int(sys.argv[3]), sys.argv[4]
     rng = random.Random(seed)
@@ -450,6 +497,8 @@ def main():
             fh.write(json.dumps(e, separators=(',', ':')) + '\n')
         if mode == 'c06':
             mode_c06(emit, tier, rng)
+        elif mode == 'replay':
+            mode_replay(emit, rng, sys.argv[5])
         else:
             mode_c07(emit, tier, rng, sys.argv[5] if len(sys.argv) > 5 else None)
 
